@@ -22,6 +22,7 @@ type specCtx struct {
 	lenient  bool // locals without a value on this path are unconstrained (ensures-local)
 	callArgs []Value // precall clauses: the argument values of the call being made (argIs)
 	facts    *[]Term // typing facts (slice lengths, integer ranges) of closed terms read while evaluating
+	cl       *Clause // the clause being evaluated
 }
 
 type inlineCtx struct {
@@ -185,12 +186,22 @@ func (fv *FV) call(e *Env, x *ast.CallExpr) Value {
 			np := sigF.Params().Len()
 			if len(args) >= np-1 {
 				vt := sigF.Params().At(np - 1).Type()
-				sl := fv.freshValue(vt, "variadic")
 				n := len(args) - (np - 1)
-				if sl.K == kSlice {
-					fv.assume(e, and(eq(sl.Len, intLit(int64(n))), eq(sl.Off, intLit(0))))
-					if n == 0 {
-						fv.assume(e, eq(sl.T, tNull))
+				var sl Value
+				if st, ok := vt.Underlying().(*types.Slice); ok && n > 0 && !isObjectType(st.Elem()) {
+					// the extra arguments, in order, in a fresh backing array
+					r := fv.allocRef(e, "variadic")
+					for j := 0; j < n; j++ {
+						fv.storeCell(e, "E$"+sanitize(elemKey(st.Elem())), st.Elem(), "", args[np-1+j], r, intLit(int64(j)))
+					}
+					sl = Value{K: kSlice, T: r, Off: intLit(0), Len: intLit(int64(n)), Cap: intLit(int64(n)), Type: vt}
+				} else {
+					sl = fv.freshValue(vt, "variadic")
+					if sl.K == kSlice {
+						fv.assume(e, and(eq(sl.Len, intLit(int64(n))), eq(sl.Off, intLit(0))))
+						if n == 0 {
+							fv.assume(e, eq(sl.T, tNull))
+						}
 					}
 				}
 				packed := append(append([]Value{}, args[:np-1]...), sl)
@@ -943,6 +954,29 @@ func (fv *FV) applyContract(e *Env, x *ast.CallExpr, u *FuncUnit, recv *Value, a
 	return Value{K: kTuple, Tuple: results, Type: rt}
 }
 
+// clauseLocal resolves a gh_local[T]("name") call of the clause being evaluated.
+func (fv *FV) clauseLocal(c *ast.CallExpr) *types.Var {
+	if fv.spec == nil || fv.spec.cl == nil || len(c.Args) != 1 {
+		return nil
+	}
+	fun := ast.Unparen(c.Fun)
+	if ix, ok := fun.(*ast.IndexExpr); ok {
+		fun = ix.X
+	}
+	if id, ok := fun.(*ast.Ident); !ok || id.Name != "gh_local" {
+		return nil
+	}
+	lit, ok := ast.Unparen(c.Args[0]).(*ast.BasicLit)
+	if !ok {
+		return nil
+	}
+	name, err := strconv.Unquote(lit.Value)
+	if err != nil {
+		return nil
+	}
+	return fv.spec.cl.Locals[name]
+}
+
 func (fv *FV) siteOrd(key string) int {
 	fv.siteCount[key]++
 	return fv.siteCount[key]
@@ -968,6 +1002,10 @@ func (fv *FV) havocLocation(e, pre *Env, cl *Clause, bind map[types.Object]Value
 			}
 		case "elems":
 			fv.havocSliceElems(e, l.slice, l.typ)
+			if _, used := fv.compSort[ordDetComp]; used {
+				// a callee that may write the elements may also have re-ordered them
+				fv.storeComp(e, ordDetComp, sBool, fv.s.freshConst("ord", sBool), l.slice.T)
+			}
 		case "map":
 			fv.havocMap(e, l.ref, l.typ.Underlying().(*types.Map))
 		default:
@@ -1502,8 +1540,29 @@ func (fv *FV) ghostBuiltin(e *Env, x *ast.CallExpr, fn *types.Func) Value {
 			ats = append(ats, nil) // spec passes values, not pointers
 		}
 		return Value{K: kScalar, T: fv.keyID(e, kf.T, args, ats)}
+	case "gh_local":
+		// gh_local[T]("x"): the unique local x of a nested block (see checkClause)
+		if o := fv.clauseLocal(x); o != nil {
+			if v, has := fv.lookup(e, o); has {
+				return v
+			}
+			if fv.spec != nil && fv.spec.lenient {
+				return fv.freshValue(o.Type(), "undef$"+o.Name())
+			}
+			fv.specErr("local " + o.Name() + " has no value here")
+			return fv.freshValue(o.Type(), "undef$"+o.Name())
+		}
+		fv.specErr("gh_local: unknown local")
 	case "gh_defined":
 		// defined(x): the local x has been assigned on the path reaching this return
+		if c, ok := ast.Unparen(x.Args[0]).(*ast.CallExpr); ok {
+			if o := fv.clauseLocal(c); o != nil {
+				if _, has := fv.lookup(e, o); has {
+					return Value{K: kScalar, T: tTrue}
+				}
+				return Value{K: kScalar, T: tFalse}
+			}
+		}
 		if id, ok := ast.Unparen(x.Args[0]).(*ast.Ident); ok {
 			if o, ok := fv.info.Uses[id].(*types.Var); ok {
 				if _, has := fv.lookup(e, o); has {
@@ -1555,6 +1614,14 @@ func (fv *FV) ghostBuiltin(e *Env, x *ast.CallExpr, fn *types.Func) Value {
 	case "gh_arrOf":
 		v := fv.expr(e, x.Args[0])
 		return Value{K: kScalar, T: v.T, Type: rt}
+	case "gh_ordDet":
+		// the order of the slice's backing array was last established by a sort (library models of sort.Slice, sort.Strings, slices.Sort)
+		v := fv.expr(e, x.Args[0])
+		if v.K == kSlice {
+			// at most one element: only one order exists
+			return Value{K: kScalar, T: or(le(v.Len, intLit(1)), fv.loadComp(e, ordDetComp, sBool, v.T)), Type: rt}
+		}
+		return Value{K: kScalar, T: fv.loadComp(e, ordDetComp, sBool, v.T), Type: rt}
 	case "gh_upd":
 		m := fv.expr(e, x.Args[0])
 		k := fv.expr(e, x.Args[1])
